@@ -43,7 +43,8 @@ crossing nmol n thr  T_0 … T_{nmol-1}
 units; the ±2 APC window mask of the Python is re-applied by the handler, which is the identity on
 an already windowed matrix, so the raw `|overlap|` may be sent as well); `perm` = what the REAL
 `_compute_perm_from_overlap` returns for `ov_win[m:m+1]` (supplied for every trajectory, the model
-looks only at those of needed rows; entries must be `< n`).  `active < n`, `holdoff ≥ 0`,
+looks only at those of needed rows; entries must be `< n`; `bad-op` if two NEEDED rows with equal
+windows carry different permutations, i.e. if the real routine were not row-wise).  `active < n`, `holdoff ≥ 0`,
 `-1 ≤ prev_state < n`.  Answer (one line):
 
 ```
@@ -330,10 +331,12 @@ def handle (toks : List String) : Option String :=
     let trajs ← parseTrajs n nmol xs
     let batch := trajs.map (·.1)
     let perms := trajs.map (·.2)
-    -- `permOf` must be a function of the overlap window of ONE row; rows with equal windows may
-    -- carry different supplied permutations only if the real routine were not a function, so the
-    -- first trajectory with that window is used and a request violating functionality is rejected
-    let table := (batch.zip perms).map fun (t, p) => (t.ov, p)
+    -- `permOf` must be a function of the overlap window of ONE row: it is the lookup table
+    -- window ↦ supplied permutation over the NEEDED rows only (the supplied permutations of the
+    -- other rows are never looked at); a request in which two needed rows with equal windows carry
+    -- different permutations contradicts row-wiseness of the real routine and is rejected
+    let table := ((batch.zip perms).filter fun (t, _) => probeMaskOf thr t || detectMaskOf thr t).map
+      fun (t, p) => (t.ov, p)
     if table.any (fun (ov, p) => table.any fun (ov', p') => ov == ov' && p != p') then none else
     let permOf : Row → List Nat := fun ov =>
       match table.find? (fun (ov', _) => ov' == ov) with
